@@ -270,7 +270,7 @@ def obligations(tier):
 
                 pre_ov = (lambda lens, pre: (lambda **kw: pre(**kw) and bool(_overlaps_window(_starts(lens, kw), lens, kw["w"]))))(lens, pre)
                 ex = dict({"s0": 103, "w": 100}, **{"g%d" % i: 2 for i in range(1, k)})
-                symbolic = (not quick) or k == 1 or (lens == (3, 3) and f0 == 1) or (lens == (4, 5) and mode == "shift" and f0 == 0)
+                symbolic = (not quick) or k == 1 or (lens == (3, 3) and f0 == 1) or (lens == (4, 5) and mode == "shift" and f0 == 0 and strand is PLUS)
                 if symbolic:
                     out.append(Obl("codons_on_chunk_" + tag, codons_on_chunk(lens, strand, frames), params, pre_ov, budget=900, cost=60 * k * k,
                                    consts=dict(f0=f0, n=sum(lens), plus=strand is PLUS, k=k, L=L),
@@ -317,6 +317,8 @@ def obligations(tier):
                        desc="coding transcript on a chunk: stays coding with unchanged chromosome CDS bounds whatever the window; the CDS chunk-relative "
                             "location is empty exactly when no CDS base is inside, the transcript's exactly when no exon base is inside",
                        bounds="2 exons, CDS inside the second exon, symbolic window", examples=[dict(s0=100, l0=5, g1=3, l1=9, co=2, cl=6, w=96, p=110)]))
+        if quick and strand is MINUS:
+            continue
         out.append(Obl("gene_on_chunk_%s" % sn, gene_on_chunk(strand), dict(s0=int, l0=int, g1=int, l1=int, w=int),
                        lambda s0, l0, g1, l1, w: s0 >= 0 and l0 >= 1 and g1 >= 1 and l1 >= 1 and w >= 0, budget=400, cost=60,
                        desc="gene / feature collection on a chunk: span and to_dict unchanged, chunk-relative span = span clipped to the window",
